@@ -25,7 +25,11 @@ def gen_trace(rng):
         leafs = set()
         for _ in range(rng.randrange(3, 10)):
             st = rng.choice(STEMS)
-            if rng.random() < 0.8:
+            r_ = rng.random()
+            if r_ < 0.15:
+                # the suffix text in the middle of a name: such a name is in no group for that suffix
+                leafs.add(st + rng.choice(SEPS) + rng.choice(SUFS) + rng.choice(['_q', '2', 'x', '_valid']))
+            elif r_ < 0.8:
                 leafs.add(st + rng.choice(SEPS) + rng.choice(SUFS))
             else:
                 leafs.add(st + rng.choice(['', '<0>', '<1>', '_n']))
